@@ -116,6 +116,9 @@ theorem lineK_qubits {L : Nat} (hL : 1 ≤ L) (f : Bool) (c m : Int) :
 /-- the face `(a, j)` lies on the line `m` of colour offset `c` -/
 def OnLine (L : Nat) (c m a j : Int) : Prop := Cg L (a + 2 * j - 3 * m - 2 * c - 2)
 
+instance (L : Nat) (c m a j : Int) : Decidable (OnLine L c m a j) := by
+  unfold OnLine Cg; infer_instance
+
 theorem cg_sub_emod (L : Nat) (w : Int) : Cg L (w - w % (3 * (L : Int))) :=
   ⟨w / (3 * (L : Int)), by have := Int.mul_ediv_add_emod w (3 * (L : Int)); omega⟩
 
